@@ -52,12 +52,19 @@ def plan(tier, seed):
     for name, pairs, menu in slices(tier):
         for osh, ssh in pairs:
             out.append({"slice": name, "osh": osh, "ssh": ssh, "menu": menu, "genall": "bighgt" not in name})
+    # operation histories: one ReconciliationInput per shape pair (ancestors named / unnamed) whose leaf assignment and
+    # cost dicts are updated in place through every assignment x cost vector; each call checked against the oracle
+    core = spaces.plain_core()
+    pairs = spaces.shape_pairs(3, 4, min_obj=2) if tier == "quick" else spaces.shape_pairs(4, 4, min_obj=2)
+    for k, (osh, ssh) in enumerate(pairs):
+        out.append({"slice": "session:" + ("P3x4" if tier == "quick" else "P4x4"), "osh": osh, "ssh": ssh, "menu": core,
+                    "genall": True, "session": True, "unnamed": bool(k % 2)})
     return out
 
 
-def check_case(O, S, leafmap, costs, algo, policy, valid_summary=None):
-    """Run one solver on freshly built objects; return None or (subcheck, detail, observed)."""
-    inp, onode, snode = A.build_input(O, S, leafmap, costs)
+def check_case(O, S, leafmap, costs, algo, policy, valid_summary=None, session=None):
+    """Run one solver on freshly built objects (or on the shared objects of a session); return None or (subcheck, detail, observed)."""
+    inp, onode, snode = session.set(leafmap, costs) if session is not None else A.build_input(O, S, leafmap, costs)
     try:
         res = ALGOS[algo](inp, A.POLICY[policy])
         res = list(res)
@@ -94,8 +101,8 @@ def check_case(O, S, leafmap, costs, algo, policy, valid_summary=None):
 GENALL_MENU = [(0, 1, 1, 1, 1), (0, 1, dtl.INF, 1, 1), (0, 0, 0, 0, 1), (3, 0, 2, 1, 1), (1, 2, 0, 0, 1)]
 
 
-def check_generate_all(O, S, leafmap, valid_keys, costs=(0, 1, 1, 1, 1)):
-    inp, onode, snode = A.build_input(O, S, leafmap, costs)
+def check_generate_all(O, S, leafmap, valid_keys, costs=(0, 1, 1, 1, 1), session=None):
+    inp, onode, snode = session.set(leafmap, costs) if session is not None else A.build_input(O, S, leafmap, costs)
     try:
         outs = list(generate_all(inp))
     except Exception as exc:
@@ -134,6 +141,14 @@ def run_shard(shard, tier, seed):
     vtotal = 0
     samples = []
     counters = {"solver_runs": 0, "valid_mappings_enumerated": 0}
+    sess = A.Session(O, S, unnamed=shard.get("unnamed", False)) if shard.get("session") else None
+    pre = "session_" if sess else ""
+
+    def sjson(c):
+        if sess is not None:
+            c["session_shard"] = A.pack(shard)
+        return c
+
     for leafmap in spaces.assignments(O, S):
         n_inputs += 1
         valid = list(dtl.valid_mappings(O, S, leafmap))
@@ -150,13 +165,13 @@ def run_shard(shard, tier, seed):
         lca_m = dtl.lca_mapping(O, S, leafmap)
         valid_keys = {tuple(sorted(m.items())) for m, _ in valid}
         for gcosts in (GENALL_MENU if shard.get("genall", True) else ()):
-            g = check_generate_all(O, S, leafmap, valid_keys, gcosts)
+            g = check_generate_all(O, S, leafmap, valid_keys, gcosts, session=sess)
             n_eval += 1
             counters["generate_all_runs"] = counters.get("generate_all_runs", 0) + 1
             if g:
                 vtotal += 1
                 if len(viols) < 8 and not any(v["subcheck"] == g[0] for v in viols):
-                    viols.append({"property": "C01", "subcheck": g[0], "case": case_json(osh, ssh, leafmap, gcosts),
+                    viols.append({"property": "C01", "subcheck": pre + g[0], "case": sjson(case_json(osh, ssh, leafmap, gcosts)),
                                   "detail": g[1] + f" (costs {A.costs_to_json(gcosts)})"})
         for costs in menu:
             spe, dup, hgt, fl = costs[:4]
@@ -176,14 +191,15 @@ def run_shard(shard, tier, seed):
                 for policy in ("ALL", "ANY"):
                     n_eval += 1
                     counters["solver_runs"] += 1
-                    bad = check_case(O, S, leafmap, costs, algo, policy, summary)
+                    bad = check_case(O, S, leafmap, costs, algo, policy, summary, session=sess)
                     if bad:
                         vtotal += 1
                         if len(viols) < 8 and not any(v["subcheck"] == bad[0] and v["case"].get("algorithm") == algo
                                                       for v in viols):
-                            viols.append({"property": "C01", "subcheck": bad[0],
-                                          "case": case_json(osh, ssh, leafmap, costs, algo, policy),
-                                          "detail": bad[1], "traceback": bad[2]})
+                            viols.append({"property": "C01", "subcheck": pre + bad[0],
+                                          "case": sjson(case_json(osh, ssh, leafmap, costs, algo, policy)),
+                                          "detail": (f"call #{sess.calls} on the shared input object: " if sess else "") + bad[1],
+                                          "traceback": bad[2]})
         if len(samples) < 1:
             samples.append(case_json(osh, ssh, leafmap, menu[0], "thl", "ALL"))
     return {"evaluations": n_eval, "inputs": n_inputs, "nontrivial": nt, "samples": samples,
@@ -192,6 +208,10 @@ def run_shard(shard, tier, seed):
 
 def replay(v):
     case = v["case"]
+    if case.get("session_shard"):
+        res = run_shard(A.unpack(case["session_shard"]), "quick", 0)
+        hits = [x for x in res["violations"] if x["subcheck"] == v.get("subcheck")] or res["violations"]
+        return {"violated": bool(hits), "detail": (hits[0]["subcheck"] + ": " + hits[0]["detail"]) if hits else None}
     osh = shape_from_json(case["object_shape"])
     ssh = shape_from_json(case["species_shape"])
     O, S = T(osh), T(ssh)
